@@ -89,6 +89,17 @@ def guarded(mod, spec):
             out.fail(f"hang|{core.exc_frame(e, outermost=True)}", f"no result after {CASE_CPU_S}s CPU, in {core.exc_frame(e)}")
             return out
         raise core.HarnessError(f"case budget exceeded outside library code: {core.exc_frame(e)}") from e
+    except MemoryError as e:
+        # the worker's address space is capped (RLIMIT_AS): running out of it while a case executes library code is a
+        # resource blow-up of that case, not a harness problem
+        import gc
+
+        gc.collect()
+        if core.in_library(e):
+            out = core.Outcome()
+            out.fail(f"memory|MemoryError|{core.exc_frame(e, outermost=True)}", f"MemoryError under the worker's address-space cap, in {core.exc_frame(e)}")
+            return out
+        raise
     finally:
         signal.setitimer(signal.ITIMER_PROF, 0)
 
